@@ -31,7 +31,7 @@ def event_world(seed):
     rng = w.rng
     for ci in range(2):
         chrom = "chr%d" % (ci + 1)
-        w.add_chrom(chrom, 70000)
+        w.add_chrom(chrom, 100000)
         pos = 2000
         for gi in range(5):
             strand = rng.choice("+-")
@@ -88,9 +88,50 @@ def event_world(seed):
                 # missed short terminal exon: read ends at the last but one exon
                 mk([ex[3], ex[4], ex[5]], "missed-terminal-exon-right", polya=30 if strand == "+" else 0)
                 mk([ex[1], ex[2], ex[3]], "missed-terminal-exon-left", polyt=30 if strand == "-" else 0)
+                # terminal exons aligned at a wrong place (same length, inside the neighbouring intron): left, right and BOTH ends
+                L1 = ex[1][1] - ex[1][0] + 1
+                L5 = ex[5][1] - ex[5][0] + 1
+                left_mis = (ex[1][1] + 120, ex[1][1] + 120 + L1 - 1)          # inside intron 1-2 (intron >= 400)
+                right_mis = (ex[5][0] - 0, ex[5][1])                            # placeholder, replaced below
+                gap45 = ex[5][0] - ex[4][1] - 1
+                core = [ex[2], ex[3], ex[4]]
+                if ex[2][0] - left_mis[1] > 60:
+                    mk([left_mis] + core + [ex[5]], "misplaced-terminal-exon-left")
+                # right: last exon (ex5) placed earlier is impossible with a micro intron before it; use ex[4] as last and move it into intron 3-4
+                gap34 = ex[4][0] - ex[3][1] - 1
+                L4 = ex[4][1] - ex[4][0] + 1
+                right_mis = (ex[3][1] + 150, ex[3][1] + 150 + L4 - 1)
+                if right_mis[1] < ex[4][0] - 60 and gap34 > L4 + 250:
+                    mk([ex[1], ex[2], ex[3], right_mis], "misplaced-terminal-exon-right")
+                    if ex[2][0] - left_mis[1] > 60:
+                        mk([left_mis, ex[2], ex[3], right_mis], "misplaced-terminal-exon-both")
                 # significant differences that must NOT be corrected
                 mk([ex[1], (ex[3][0] + 120, ex[3][1]), ex[4]], "alt-site-far")
             pos = p + rng.randint(2500, 3500)
+        # single-isoform genes with 100-bp terminal exons; reads whose terminal exons are aligned at the wrong place
+        # (inside the neighbouring intron, same length): left only, right only and BOTH ends
+        for gi in range(2):
+            strand = "+-"[gi]
+            gid = "T%d_%d" % (ci + 1, gi + 1)
+            e0 = (pos, pos + 99)
+            e1 = (pos + 2000, pos + 2199)
+            e2 = (pos + 4000, pos + 4199)
+            e3 = (pos + 6000, pos + 6199)
+            e4 = (pos + 8000, pos + 8099)
+            exs = [e0, e1, e2, e3, e4]
+            g = Gene(gid, chrom, strand)
+            g.transcripts.append(Transcript(gid + ".t1", gid, chrom, strand, exs, True, "terminal-events"))
+            for intr in g.transcripts[0].introns:
+                w.plant_sites(chrom, intr, strand)
+            w.genes.append(g)
+            lm = (pos + 1000, pos + 1099)
+            rm = (pos + 7000, pos + 7099)
+            for _ in range(3):
+                w.make_read(chrom, exs, truth={"src": gid + ".t1", "class": "exact"})
+                w.make_read(chrom, [lm, e1, e2, e3, e4], truth={"src": gid + ".t1", "class": "misplaced-terminal-exon-left"})
+                w.make_read(chrom, [e0, e1, e2, e3, rm], truth={"src": gid + ".t1", "class": "misplaced-terminal-exon-right"})
+                w.make_read(chrom, [lm, e1, e2, e3, rm], truth={"src": gid + ".t1", "class": "misplaced-terminal-exon-both"})
+            pos = pos + 8100 + rng.randint(2500, 3500)
     return w
 
 
